@@ -115,7 +115,9 @@ def stepD (d : DState) (toks : List String) : DState × String :=
   | ["crecv", nack] =>
     let y := IstioModel.C04.step d.ty d.sys (.clientRecv (decNack nack)); let y := { y with srv := normalize y.srv }; ({ d with sys := y }, showSys y)
   | ["srecv", n] =>
-    let y := IstioModel.C04.step d.ty d.sys (.serverRecv (dec n)); let y := { y with srv := normalize y.srv }; ({ d with sys := y }, showSys y)
+    let y := IstioModel.C04.step d.ty d.sys (.serverRecv (dec n) true); let y := { y with srv := normalize y.srv }; ({ d with sys := y }, showSys y)
+  | ["srecv", n, deliver] =>
+    let y := IstioModel.C04.step d.ty d.sys (.serverRecv (dec n) (tokBool deliver)); let y := { y with srv := normalize y.srv }; ({ d with sys := y }, showSys y)
   | ["spush", n] =>
     let y := IstioModel.C04.step d.ty d.sys (.serverPush (dec n)); let y := { y with srv := normalize y.srv }; ({ d with sys := y }, showSys y)
   | ["always"] =>
